@@ -5,7 +5,7 @@ ROOT = os.path.dirname(os.path.dirname(os.path.abspath(__file__)))
 sys.path.insert(0, os.path.join(ROOT, "tools"))
 import plans
 
-HOOK_COMMITS = ["d9913d3", "8e2e077"]
+HOOK_COMMITS = ["d9913d3", "8e2e077", "cb1976e"]
 
 TEXT = {
     "C01": ("exploration", "5 C01",
